@@ -53,7 +53,6 @@ func getResponseHeader(src *fasthttp.ResponseHeader) (dest http.Header) {
 func (trans *Transport) Transport(ctx context.Context, request []byte) (response []byte, err error) {
 	clientContext := core.GetClientContext(ctx)
 	req := fasthttp.AcquireRequest()
-	defer fasthttp.ReleaseRequest(req)
 	req.Header.SetMethod("POST")
 	req.SetRequestURI(clientContext.URL.String())
 	req.SetBody(request)
@@ -77,12 +76,30 @@ func (trans *Transport) Transport(ctx context.Context, request []byte) (response
 		trans.loadCookie(req, clientContext.URL)
 	}
 	resp := fasthttp.AcquireResponse()
-	defer fasthttp.ReleaseResponse(resp)
-	if deadline, ok := ctx.Deadline(); ok {
-		err = trans.FastHTTPClient.DoDeadline(req, resp, deadline)
-	} else {
-		err = trans.FastHTTPClient.Do(req, resp)
+	release := func() {
+		fasthttp.ReleaseRequest(req)
+		fasthttp.ReleaseResponse(resp)
 	}
+	done := make(chan error, 1)
+	go func() {
+		if deadline, ok := ctx.Deadline(); ok {
+			done <- trans.FastHTTPClient.DoDeadline(req, resp, deadline)
+		} else {
+			done <- trans.FastHTTPClient.Do(req, resp)
+		}
+	}()
+	select {
+	case err = <-done:
+	case <-ctx.Done():
+		// fasthttp cannot give up a request in progress: the caller gets its answer now,
+		// the request and response objects are released when the exchange ends.
+		go func() {
+			<-done
+			release()
+		}()
+		return nil, ctx.Err()
+	}
+	defer release()
 	if err != nil {
 		return nil, err
 	}
